@@ -753,6 +753,21 @@ func (v *Verifier) evalCall(env *Env, e *Expr) *Val {
 		}
 		_, ok := env.St.Held[id]
 		return boolVal(BoolLit(ok))
+	case "heldshared":
+		// the RWMutex is held by this thread in read mode (other readers may hold it too)
+		if env.St == nil {
+			unsupportedf("heldshared() in an old state")
+		}
+		a := arg(0)
+		if a.FP == nil && args[0].Kind == "sel" && env.X != nil {
+			a = v.evalLockRef(env, env.X, env.St, args[0])
+		}
+		id := ""
+		if env.X != nil {
+			id = env.X.refOf(a).String()
+		}
+		h, ok := env.St.Held[id]
+		return boolVal(BoolLit(ok && h.Read))
 	case "boxed":
 		a := arg(0)
 		if a.T != nil {
